@@ -11,11 +11,13 @@ detector), the SHARED timer (`tx_allowed`; `timer.start` = the deserializer's re
 
 Proved (`decHolds_of_dec`, for every history): two clauses of `DevCtl.decHolds` — the decoder's `timer.start` comes only
 in the cycle after a reception ended (`DI.i1/i2`: the deserializer parses only while `rx_active` was high a cycle ago), and
-`setup.type` changes only together with the `received` strobe (`dec_regs`).  What remains assumed is `decOk'`: the
-decoder's ACK coincides with the receiver's `ready_for_response` while the tokenizer shows SETUP, `received` only while
-it shows SETUP, no `received` / forwarded host ACK while the control slot is armed or sending, the legal-host clause on
-`start_position`, reset sequencer silent.  (The first three need the joint invariant "decoder in DELAY <=> receiver in its
-inter-packet DELAY" + the equality of the deserializer's and the receiver's CRC16 checks; not proved.)
+`setup.type` changes only together with the `received` strobe (`dec_regs`); and a third — `received` is visible only
+while the tokenizer shows SETUP (`DI.i4/i5`: the strobe is raised for a `new_packet` under a SETUP pid, and the token
+detector, idle after the cycle without `rx_active`, keeps its `pid` over that edge).  What remains assumed is `decOk'`:
+the decoder's ACK coincides with the receiver's `ready_for_response` while the tokenizer shows SETUP, no `received` /
+forwarded host ACK while the control slot is armed or sending, the legal-host clause on `start_position`, reset
+sequencer silent.  (The first two need the joint invariant "decoder in DELAY <=> receiver in its inter-packet DELAY" +
+the equality of the deserializer's and the receiver's CRC16 checks; not proved.)
 -/
 namespace LunaVerif.DevDec
 open LunaVerif LunaVerif.DevCyc LunaVerif.DevCyc.Abs LunaVerif.C20Ctr LunaVerif.DevEp LunaVerif.CtrlCyc LunaVerif.DevCtl
@@ -77,6 +79,32 @@ theorem dec_regs (c : SetupDecoder.Config) (k : Dec) (tn : Bool) (tp : Nat) (dn 
     (ta : Bool) : (decStep c k tn tp dn dl p ta).1.received = false → suOf (decStep c k tn tp dn dl p ta).1 = suOf k := by
   cases hf : k.fsm <;> simp only [decStep, hf] <;> (repeat' split) <;> simp [suOf]
 
+/-- `received` is strobed only for a `new_packet` of the deserializer while the tokenizer shows SETUP. -/
+theorem dec_received_origin (c : SetupDecoder.Config) (k : Dec) (tn : Bool) (tp : Nat) (dn : Bool) (dl : Nat)
+    (p : List Nat) (ta : Bool) :
+    (decStep c k tn tp dn dl p ta).1.received = true → dn = true ∧ tp = SetupDecoder.SETUP_PID := by
+  cases hf : k.fsm <;> simp only [decStep, hf] <;> (repeat' split) <;> simp_all
+
+/-- The device's token detector is idle after a cycle without `rx_active`, and an idle detector keeps its `pid`. -/
+theorem tok_facts (cfg : TokenDetector.Config) (s : TokenDetector.State) (i : TokenDetector.In) :
+    (i.rx.active = false → (TokenDetector.tokStep cfg s i).1.fsm = .idle) ∧
+    (s.fsm = .idle → (TokenDetector.tokStep cfg s i).1.regs.pid = s.regs.pid) := by
+  refine ⟨?_, ?_⟩
+  · intro h
+    cases hf : s.fsm <;> simp only [TokenDetector.tokStep, hf, h] <;> simp
+    (repeat' split) <;> simp
+  · intro hf
+    simp only [TokenDetector.tokStep, hf]
+    split <;> simp
+
+theorem dev_tok (c : DevEp.Config) (S : DevEp.State) (x : Ext) :
+    (DevEp.step c S x).1.dev.tok.tok = (TokenDetector.tokStep c.dev.tok S.dev.tok.tok ⟨x.rx, x.address⟩).1 := by
+  show (DevCyc.step c.dev S.dev (fullIn c S x)).1.tok.tok = _
+  simp [DevCyc.step, TokenDetector.step, fullIn]
+
+theorem fwd_regs (c : DevEp.Config) (S : DevEp.State) (x : Ext) : (fwd c S x).tok.regs = S.dev.tok.tok.regs := by
+  simp [fwd, DevCyc.step, TokenDetector.step]
+
 /-! ### The decoder's invariant next to the packet layer's ghost -/
 
 /-- The deserializer parses only while `rx_active` was high in the previous cycle; its `new_packet` strobe appears in
@@ -85,16 +113,19 @@ structure DI (D : State) (g : Ghost) (pty : Nat) : Prop where
   i1 : D.ds.fsm ≠ .idle → g.a1 = true
   i2 : D.ds.newPacket = true → g.a1 = false ∧ g.a2 = true
   i3 : D.dec.received = false → (suOf D.dec).type = pty
+  i4 : g.a1 = false → D.w.ep.dev.tok.tok.fsm = .idle
+  i5 : D.dec.received = true → D.w.ep.dev.tok.tok.regs.pid = SetupDecoder.SETUP_PID
 
 theorem di_init (c : Config) : DI (init c) ghostInit 0 := by
-  refine ⟨?_, ?_, ?_⟩ <;> simp [init, SetupDecoder.init, suOf]
+  refine ⟨?_, ?_, ?_, ?_, ?_⟩ <;>
+    simp [init, SetupDecoder.init, suOf, DevCtl.init, DevEp.init, DevCyc.init, TokenDetector.fullInit,
+      TokenDetector.init]
 
 /-- What is still assumed of the decoder's surroundings in one cycle (compare `DevCtl.decOk`: the `timer.start` clause
-and the `setup.type` clause are gone). -/
+the `setup.type` clause and the `received => SETUP` clause are gone). -/
 def decOk' (c : Config) (D : State) (q : Phs) (x : Ext) (ac : Nat) : Bool :=
   let o := fwd c.dc.ep D.w.ep x
   (!(decCycle c D x).2 || (o.rxo.ready && o.tok.isSetup)) &&
-  (!D.dec.received || o.tok.isSetup) &&
   (q.r == .idle ||
     (!D.dec.received && !(ctrlComb c.dc.ctl D.w.ctl.cs.stage (ctlIn x (dOf c D x ac) o)).hsAck)) &&
   (D.w.ctl.blk.fsm != .start || decide (D.w.ctl.cs.h.startPos < 2 ^ c.dc.blk.img.posW)) && !x.rsValid
@@ -103,9 +134,16 @@ theorem decOk_of (c : Config) {D : State} {g : Ghost} {q : Phs} {pty : Nat} {x :
     (hi : DI D g pty) (h : decOk' c D q x ac = true) :
     decOk c.dc D.w g q pty (xOf D x) (dOf c D x ac) = true := by
   simp only [decOk', Bool.and_eq_true, Bool.or_eq_true, Bool.not_eq_eq_eq_not, Bool.not_true, beq_iff_eq] at h
-  obtain ⟨⟨⟨⟨h1, h2⟩, h3⟩, h4⟩, h5⟩ := h
+  obtain ⟨⟨⟨h1, h3⟩, h4⟩, h5⟩ := h
   simp only [decOk, fwd_x, Bool.and_eq_true, Bool.or_eq_true, Bool.not_eq_eq_eq_not, Bool.not_true, beq_iff_eq]
-  refine ⟨⟨⟨⟨⟨h1, h2⟩, ?_⟩, h4⟩, ?_⟩, h5⟩
+  refine ⟨⟨⟨⟨⟨h1, ?_⟩, ?_⟩, h4⟩, ?_⟩, h5⟩
+  · show D.dec.received = false ∨ _
+    cases hr : D.dec.received with
+    | false => exact Or.inl rfl
+    | true =>
+      right
+      rw [(pid_decode c.dc D.w x).2.2.1, fwd_regs, hi.i5 hr]
+      rfl
   · rcases h3 with h | h
     · exact Or.inl h
     · exact Or.inr ⟨h, hi.i3 h.1⟩
@@ -118,7 +156,11 @@ theorem di_step (c : Config) (p : Params) {D : State} {g : Ghost} {pty : Nat} (x
     (o : DevCyc.Out) (hrx : i.rx = x.rx) (hi : DI D g pty) :
     DI (step c D x ac) (ghostNext p g D.w.ep.dev i o) (suOf D.dec).type := by
   obtain ⟨n1, n2⟩ := deser_new D.ds (fwd c.dc.ep D.w.ep x).rxo.crcOut x.rx
-  refine ⟨?_, ?_, ?_⟩
+  have htok : (step c D x ac).w.ep.dev.tok.tok =
+      (TokenDetector.tokStep c.dc.ep.dev.tok D.w.ep.dev.tok.tok ⟨x.rx, x.address⟩).1 :=
+    dev_tok c.dc.ep D.w.ep (extOf c.dc D.w (xOf D x) (dOf c D x ac))
+  obtain ⟨t1, t2⟩ := tok_facts c.dc.ep.dev.tok D.w.ep.dev.tok.tok ⟨x.rx, x.address⟩
+  refine ⟨?_, ?_, ?_, ?_, ?_⟩
   · intro h; show i.rx.active = true; rw [hrx]; exact n2 h
   · intro h
     obtain ⟨a, b⟩ := n1 h
@@ -127,6 +169,14 @@ theorem di_step (c : Config) (p : Params) {D : State} {g : Ghost} {pty : Nat} (x
     have := dec_regs (decCfg c) D.dec (fwd c.dc.ep D.w.ep x).tok.regs.newToken (fwd c.dc.ep D.w.ep x).tok.regs.pid
       D.ds.newPacket D.ds.length D.ds.packet (fwd c.dc.ep D.w.ep x).txAllowed h
     exact congrArg Device.Setup.type this
+  · intro h
+    have h' : x.rx.active = false := by rw [← hrx]; exact h
+    rw [htok]; exact t1 h'
+  · intro h
+    obtain ⟨a, b⟩ := dec_received_origin (decCfg c) D.dec (fwd c.dc.ep D.w.ep x).tok.regs.newToken
+      (fwd c.dc.ep D.w.ep x).tok.regs.pid D.ds.newPacket D.ds.length D.ds.packet (fwd c.dc.ep D.w.ep x).txAllowed h
+    rw [fwd_regs] at b
+    rw [htok, t2 (hi.i4 (hi.i2 a).1), b]
 
 /-! ### Along a history -/
 
